@@ -60,7 +60,12 @@ mod absolute_to_relative_time {
         #[cfg(tarpc_verif)]
         use crate::verif::clock::Instant;
         let deadline = Duration::deserialize(deserializer)?;
-        Ok(Instant::now() + deadline)
+        // The duration is chosen by the peer: a value too large to add to the clock must not
+        // panic. Such a deadline is as good as "very far away".
+        let now = Instant::now();
+        Ok(now
+            .checked_add(deadline)
+            .unwrap_or_else(|| now + Duration::from_secs(u32::MAX.into())))
     }
 
     #[cfg(test)]
